@@ -30,7 +30,7 @@ CLAIMS = {
          "list is only permuted (each constant once, comment attached), IsIota implies integer backing and exported values 0,1,2,... in the reported order, and every all-exported "
          "permutation of 0..n-1 is flagged. (B) fetchPkgEnums on a package scope of up to 3 (4) symbolic-named objects (constants of two named types, of a basic type, variables) with a real "
          "go/ast const declaration carrying no / a label / the opt-out trailing comment: T is an enum iff some typed constant is not opted out; members are exactly those, each once, with their comment. "
-         "The real fetchConstComment/nodeAt/ast.Inspect code is executed. NOT decided: the walk over imported packages, constant values other than int64/uint64/string. Also: function-local declarations shadowing member names earlier in the file (real parser).",
+         "The real fetchConstComment/nodeAt/ast.Inspect code is executed. NOT decided: the walk over imported packages, constant values other than int64/uint64/string. Also: function-local declarations shadowing member names earlier in the file (real parser). Also: multi-line constant declarations with trailing comments; 66 exported constants with a gap or duplicate after 64 consecutive values.",
          "DESIGN.md section 4 (C10)", ""),
  "C09": ("Decides the selection and naming clauses. (A) StructField.Exported/JSONName against a transcription of encoding/json's typeFields/isValidTag rule, for every Go field name of 1..2 (3) identifier bytes, "
          "every json tag value of 0..3 (5) printable bytes, gomacro tag absent/ignore/other; on every native run the transcription itself is compared with the real encoding/json (reflect.StructOf + Marshal). "
@@ -41,32 +41,32 @@ CLAIMS = {
  "C11": ("Decides the filter and back-link clauses. fetchPkgUnions/allNamedTypes on a package scope of 1..3 (4) named types with symbolic names, each an interface ({isA}, {isA;isB}, empty) or a struct/basic "
          "type whose methods isA/isB are absent, value-receiver or pointer-receiver, with go/types' real method-set algorithm deciding Implements: an interface is a union iff some non-interface type has a value "
          "method set implementing it; members are exactly those, each once, in name order. Struct.setImplements on 0..3 (4) unions (listing the struct or not, analysed or not, symbolic names) for every iteration "
-         "order of the unions map: Implements is exactly the analysed unions listing the struct, in name order. NOT decided: reachability of unions/structs through the type graph (C12's traversal), cross-package members. Also: alias declarations of members and of the interface (real parser).",
+         "order of the unions map: Implements is exactly the analysed unions listing the struct, in name order. NOT decided: reachability of unions/structs through the type graph (C12's traversal), cross-package members. Also: alias declarations of members and of the interface (real parser). Also: a type with the marker method's name but another signature; an interface made only of embedded interfaces; two structs of two packages sharing a local name.",
          "DESIGN.md section 4 (C11)", ""),
  "C07": ("Decides the map-iteration-order clause by self-composition: the engine treats every `range` over a map as a nondeterministic permutation and each harness compares the result under every order "
          "with the result under a reference order, on symbolic data where data matters (import paths, union names, constant names). Solved sites: Cache.Imports and the randdata header built from it, "
          "Struct.setImplements, fetchEnumsAndUnions (diamond import graph), fetchPkgEnums' final loop, PkgSelector.findPackage, NewLinker/OutputFiles/GetOutput, dart.Generate (file name -> text). "
          "A static scan of all 17 map-range sites of the non-test gomacro packages runs on every check; a site without harness or recorded argument is reported INCONCLUSIVE. Argued, not solved: populateTypes, "
          "cmd Config.run, the two httpapi import walks. For dart.Generate and NewLinker the quick tier varies one map range at a time (thorough: full product). Iteration orders are case-split exhaustively, "
-         "the solver decides the data-dependent branches (string orderings). NOT decided: pointer-value and visiting-order sources (argued: no %p verb, Source sorted by position), cross-process runs, formatter output. Also: the constants of an enum spread over two files of a real source package parsed in both orders; the static scan also lists goroutine starts (an uncovered one is reported INCONCLUSIVE, not decided).",
+         "the solver decides the data-dependent branches (string orderings). NOT decided: pointer-value and visiting-order sources (argued: no %p verb, Source sorted by position), cross-process runs, formatter output. Also: the constants of an enum spread over two files of a real source package parsed in both orders; the static scan also lists goroutine starts (an uncovered one is reported INCONCLUSIVE, not decided). The scan also lists run-dependent value sources (hash/maphash, math/rand, time.Now, os.Getpid in generator code): INCONCLUSIVE when present. A diamond of real source packages with a foreign constant of an enum's type under every order of the import walk.",
          "DESIGN.md section 4 (C07)", ""),
  "C18": ("Decides the crash mechanisms the statement names, on the functions that contain them; the assertion is always 'no Go runtime error outcome' (explicit panics with a string/error are diagnostics). "
          "Fixed-width slicing with symbolic identifiers: gounions.jsonForUnion (union name 1..3(5) bytes), randdata.functionID (package name 1..4(6) bytes), dart.codeForEnum (constant names 1..3(4) bytes incl. underscores). "
          "Type-argument assumption: typescript.typeName on G[int64], G[Named], G[[]string] built with the real types.Instantiate. Node lookup: fetchPkgEnums/fetchConstComment on real go/ast const declarations, "
          "grouped or not, 1..2 specs x 1..2 names, typed or converted, with/without comment. Directive kernels: ReplaceEnums with #[T.C] naming an enum/struct/variable/undeclared name, member or not; "
          "_SELECT KEY / UNIQUE directives naming unknown columns through sql.NewTable and sqlcrud.generateTable. Sweeps: typescript, dart (incl. Generate), SQL validators, gounions, randdata on every analysis.Type skeleton "
-         "of depth<=1 (quick) / 2 (thorough) over the nine node kinds. NOT decided: the full statement over all well-typed packages (createType on arbitrary go/types graphs, unbounded recursion, packages.Load). Also: 7 self-referential declarations through the analysis (termination; natively a stack overflow, run isolated); the package selector for root import paths of 1..4 elements; the SQL validator names of self-referential named slices/maps (known finding: unbounded recursion).",
+         "of depth<=1 (quick) / 2 (thorough) over the nine node kinds. NOT decided: the full statement over all well-typed packages (createType on arbitrary go/types graphs, unbounded recursion, packages.Load). Also: 7 self-referential declarations through the analysis (termination; natively a stack overflow, run isolated); the package selector for root import paths of 1..4 elements; the SQL validator names of self-referential named slices/maps (known finding: unbounded recursion). Also: the CRUD generator with the id field after unexported fields; six interface shapes next to a union.",
          "DESIGN.md section 4 (C18)", ""),
  "C13": ("Decides a bounded kernel. The route file, a fake echo package and an imported package are given as source text, parsed and type-checked by the real go/parser and go/types inside the engine (and natively in the twin); the syntax trees are copied into engine values "
          "with a two-way map so that the interpreted httpapi code consults the real types.Info, types.Eval and types.ExprString. Route files register 1 (2) routes over: 4 verbs; URL as literal, package-constant concatenation, imported-constant concatenation, local constant; "
          "handler as method, function, function of an imported package, function literal, form handler (file, value, JSON field, blob return), bool query parameter. Asserted: one endpoint per registration in source order (a non-route call is ignored), verb, constant-folded URL, "
          "contract name, bound input, JSON/blob return, query parameters with types, form values/file/JSON field with its resolved type; the prefix filter keeps exactly the routes whose URL has a SYMBOLIC prefix (solver-decided). Mostly a structural catalogue executed by the engine. "
-         "NOT decided: arbitrary route files, other frameworks, generic handlers. Also: a generic typed helper of an imported package called with explicit type arguments; a handler answering early inside a condition before reading further inputs; two controllers with a same-named method; local constants shadowing package-level ones.",
+         "NOT decided: arbitrary route files, other frameworks, generic handlers. Also: a generic typed helper of an imported package called with explicit type arguments; a handler answering early inside a condition before reading further inputs; two controllers with a same-named method; local constants shadowing package-level ones. Also: JSON form destinations that are a pointer variable or a field address; variadic verb methods with 0..2 middlewares.",
          "DESIGN.md section 6c (C13)", ""),
  "C12": ("Decides a bounded kernel of the statement on Analysis.handleType/createType/handleStructFields/NewTime with the real go/types objects: root struct with 1..1(2) fields whose types have depth<=1 over basic kinds, the root itself (self recursion), a second struct "
          "referring back into the world (mutual recursion), an enum, a union, type N []S, time.Time, a user-defined time type whose name has a symbolic part (date detection decided by the solver), a named int64, slices, arrays (length 0..2), maps, pointers. Asserted: no runtime error, "
          "termination (step bound = unwinding assertion), every reachable type registered and classified with the kind/length/key/element/fields/tags go/types reports, every node converting back to an identical Go type (time and date predefined, also inside composites). "
-         "Mostly structural enumeration executed by the engine; the solver decides the name-dependent date classification. NOT decided: arbitrary programs, source order of declarations, aliases, generics. Also: chains of alias declarations on a real source package; a self-referential named map in the bounded world.",
+         "Mostly structural enumeration executed by the engine; the solver decides the name-dependent date classification. NOT decided: arbitrary programs, source order of declarations, aliases, generics. Also: chains of alias declarations on a real source package; a self-referential named map in the bounded world. Also: an alias declaration at every position of the source order; a struct with fields named like time.Time's.",
          "DESIGN.md section 6b (C12)", ""),
  "C06": ("Bug hunting only for the headline (Dart semantics are not encoded). Decided text clauses: fromJson reads and toJson writes exactly the Go JSON keys in field order with one constructor argument per exported field (symbolic names/tags); "
          "a class implements exactly its exported unions; the enum value table lists exactly the exported constants parallel to the enum names, iota enums convert by position only when the listed values are their positions (real setIsIota), "
@@ -112,7 +112,7 @@ CLAIMS = {
  "C14": ("Decides the request-shape clause on generateMethod/generateAxiosCall/typeIn/typeOut/asObjectKey/convertTypedQueryParams/renderTypes/GenerateAxios for endpoints with symbolic handler, URL, form and query names: method named after the handler, "
          "Axios.<verb>(fullUrl, ...) with fullUrl = baseUrl + URL, second argument formData / params / null (body-less POST, PUT) / absent, exactly the declared formData.append calls, query object with exactly the declared parameters converted by kind, "
          "arraybuffer iff blob, `return true` iff no return type, blob + file name for blob routes, every parameter the body uses declared in the signature; file level (1..2 endpoints, concrete names): one method per endpoint, every type a signature mentions "
-         "declared exactly once. One listed known finding (JSON body and query parameters share the `params` argument). Assumes (from the statement) a JSON body or a form, not both. NOT decided: behaviour under Node, TypeScript validity. Also: named bool and named float query parameter types; JSON form field of struct, string, named string or integer type.",
+         "declared exactly once. One listed known finding (JSON body and query parameters share the `params` argument). Assumes (from the statement) a JSON body or a form, not both. NOT decided: behaviour under Node, TypeScript validity. Also: named bool and named float query parameter types; JSON form field of struct, string, named string or integer type. Also: parameter names starting with any alphanumeric byte (signature keys quoted or identifiers).",
          "DESIGN.md section 4 (C14)", ""),
  "C05": ("Decides the statement-shape clause. newColumnsCode on tables of 1..3 (4) columns with symbolic exported names and guard flags: the parallel Go/SQL lists are aligned (equal to lists built from one ordered column list), "
          "placeholders are $1..$n, guards excluded, NoPrimary lists = the same lists without the primary column, columnsCount = n. sqlcrud.Generate + generator/sql.Generate on every table shape of a structural catalogue "
@@ -130,14 +130,14 @@ CLAIMS = {
          "ReplaceEnums: #[E.A] inside symbolic text becomes the SQL literal (digits as written, strings single-quoted) optionally followed by an SQL comment, surroundings untouched; sql.newCustomQuery: $name$ placeholders "
          "numbered by first occurrence with equal names sharing a number, one typed input per distinct name; Table.processComments: select-key directives never reach CustomConstraints, UNIQUE/select-key column lists are "
          "the trimmed names; generateCustomConstraint: REFERENCES <name> rewritten through the real ToSnakeCase, ADD attached to the own table, other content verbatim. "
-         "NOT decided: which struct a comment is attributed to (position arithmetic on a type-checked package), guard values beyond the enum placeholder. Also: two analyses declaring the same enum and constant names expanded alternately in one process; a string enum value that reads like the table struct's name inside a custom constraint.",
+         "NOT decided: which struct a comment is attributed to (position arithmetic on a type-checked package), guard values beyond the enum placeholder. Also: two analyses declaring the same enum and constant names expanded alternately in one process; a string enum value that reads like the table struct's name inside a custom constraint. Also: four declaration forms of the struct carrying the directive (plain, group with the directive on the first / second spec, single-spec group; one defect fixed); the same directive text on two tables.",
          "DESIGN.md section 4 (C16)", ""),
  "C20": ("Decides the whole statement within the bounds: 2 (quick) / 3 (thorough) goroutines each issuing one FormatFile(format, file) on one shared zero Formatters, format ranging over NoFormat, the four formats and an "
          "out-of-range value, tool presence (4 booleans) and run failure (one per request) symbolic. The real SSA of hasGo/hasDart/hasTypescript/hasPsql/FormatFile runs on engine threads; sync.Mutex/WaitGroup and "
          "os/exec are environment models; every interleaving at the visible operations (Lock, Unlock, command execution, Wait, thread exit) is explored and happens-before is tracked with vector clocks, so that "
          "two unordered conflicting accesses to any memory cell are reported as a data race on every schedule. Assertions: no data race, no deadlock, each tool probed at most once, the formatter runs exactly once "
          "per request when present, error iff the run fails, absent tool => nil error and no command/write naming the file. Commands are matched by tool and mentioned file, not by exact flags. Counterexamples are "
-         "replayed natively with fake tools on PATH under `go test -race` (up to 8/20 attempts).",
+         "replayed natively with fake tools on PATH under `go test -race` (up to 8/20 attempts). Also cmd.saveOutputs itself (HC20_saveOutputs): the formatting goroutines it starts and its WaitGroup under every interleaving: every started formatter request has finished when it returns.",
          "DESIGN.md section 3 (C20)", "Additionally trusted: the sync/os.exec environment model of engine/threads.go; interleavings are case-split at synchronisation points only (unsynchronised accesses are found by the happens-before check, not by finer interleaving)."),
 }
 
